@@ -2,6 +2,7 @@ package main
 
 import (
 	"fmt"
+	"go/types"
 	"os"
 	"strings"
 )
@@ -92,6 +93,21 @@ func init() {
 			fmt.Fprintln(os.Stderr, "block", b.Index, b.Comment, "preds", len(b.Preds))
 			for _, f := range pr.facts[b] {
 				fmt.Fprintln(os.Stderr, "   ", f.x, "<=", f.y, "+", f.k)
+			}
+		}
+	}})
+}
+
+func init() {
+	register(&Property{ID: "DBG6", Patterns: []string{"./..."}, Run: func(p *Program, r *Report) {
+		fn := p.Func("keystore/v2/keystore.(*KeyBackuper).Export")
+		for _, cs := range callsIn(fn) {
+			if cs.Instr.Common().IsInvoke() && cs.Instr.Common().Method.Name() == "ExportKeyRings" {
+				m := cs.Instr.Common().Method
+				fmt.Fprintln(os.Stderr, "method", m.FullName(), "recv", m.Type().(*types.Signature).Recv().Type())
+				fmt.Fprintln(os.Stderr, "impls", p.implementersOf(m))
+				sc, _ := p.callSites()
+				fmt.Fprintln(os.Stderr, "site callees", sc[cs.Instr])
 			}
 		}
 	}})
